@@ -545,8 +545,11 @@ class Facts:
         allf = [Fn(f, self) for f in raw.get("functions", [])]
         self.by_id = {f.id: f for f in allf}
         # functions that do not exist in the reference tree are analysed through the callers they were spliced into
-        self.new_helpers = [f for f in allf if f.raw.get("new_helper")]
-        self.fns = [f for f in allf if not f.raw.get("new_helper")]
+        # (a new function that nobody among the analysed functions calls - e.g. a new customisation point member - is
+        # analysed like any other function)
+        spliced = set(raw.get("_spliced_ids", []))
+        self.new_helpers = [f for f in allf if f.raw.get("new_helper") and f.id in spliced]
+        self.fns = [f for f in allf if not (f.raw.get("new_helper") and f.id in spliced)]
         self.records = raw.get("records", {})
         self.enums = raw.get("enums", {})
         self.asm = raw.get("asm", [])
